@@ -11,6 +11,7 @@ import time
 
 VERIF = os.path.dirname(os.path.dirname(os.path.abspath(__file__)))
 KNOWN = os.path.join(VERIF, 'known_findings.txt')
+EVDIR = os.environ.get('WENCRY_EVIDENCE_DIR') or os.path.join(VERIF, 'evidence')
 
 
 def load_known():
@@ -114,7 +115,7 @@ class Recorder:
         replays = []
         if viol:
             code = 1
-            rdir = os.path.join(VERIF, 'evidence', 'replays')
+            rdir = os.path.join(EVDIR, 'replays')
             os.makedirs(rdir, exist_ok=True)
             seen = set()
             for i, o in enumerate(viol):
@@ -141,7 +142,7 @@ class Recorder:
         return code
 
     def write_evidence(self, viol, knownhit, undecided, prog):
-        os.makedirs(os.path.join(VERIF, 'evidence'), exist_ok=True)
+        os.makedirs(EVDIR, exist_ok=True)
         total = len(self.obls)
         held = sum(1 for o in self.obls if o.ok is True)
         samples = []
@@ -190,5 +191,5 @@ class Recorder:
             'wall_s': round(time.time() - self.t0, 2),
             'violations': len({o.key for o in viol}),
         }
-        with open(os.path.join(VERIF, 'evidence', self.pid + '.json'), 'w') as f:
+        with open(os.path.join(EVDIR, self.pid + '.json'), 'w') as f:
             json.dump(ev, f, indent=1, default=str)
